@@ -51,6 +51,7 @@ fn main() {
     std::panic::set_hook(Box::new(|_| {}));
     let cx = Ctx::new(&id, tier);
     match id.as_str() {
+        "C01" => props::c01::run(cx),
         "C02" => props::c02::run(cx),
         "C03" => props::c03::run(cx),
         "C05" => props::c05::run(cx),
